@@ -20,11 +20,20 @@ def run(ctx):
     ctx.assume("minimum_size_of_object() returns a non-negative integer and is a function of the class")
     ctx.assume("no statistic is named 'n' (documented reservation)")
     ctx.assume("user-defined constructors outside the package are not covered; arities above K are not covered")
+    from ..core.program import AnalysisError
+    # the syntactic rules first: what they report stands even if the interpreter cannot follow the code
+    SC.s4_forest_keys(ctx)
     fams = SC.strategy_families(ctx.P)
     tot = {"shapes": 0, "obligations": 0, "records": 0}
     for fam in fams:
-        st = SC.run_family(ctx, fam, K, alias_k)
-        SC.run_derived(ctx, fam, min(K, 4), st)
+        try:
+            st = SC.run_family(ctx, fam, K, alias_k)
+            SC.run_derived(ctx, fam, min(K, 4), st)
+        except AnalysisError as e:
+            if not ctx.violations:
+                raise
+            ctx.shortfalls.append(f"engine S could not evaluate {fam.name}: {e}")
+            continue
         for k2 in tot:
             tot[k2] += st[k2]
     ctx.extra["families"] = [f.name for f in fams]
@@ -34,7 +43,6 @@ def run(ctx):
     SC.s3_ensure_level(ctx)
     from ..engines import mapplumbing as M
     M.m4b_verification_levels(ctx)
-    SC.s4_forest_keys(ctx)
     # shifts and keys are functions of (class, children): nothing memoises them under less
     from ..engines import forestrules as E
     E.e10_memo_keyed_by_arguments(ctx)
